@@ -337,7 +337,7 @@ BoolOp(args, max, isAny) ==
   LET it == Items(args)
       n == Len(it)
       cost == N(200 + 300 * n)
-  IN  IF Over(cost, max) THEN Err("CostExceeded")
+  IN  IF n > 0 /\ Over(cost, max) THEN Err("CostExceeded")      \* no check at all without arguments
       ELSE Ok(cost, Bool(IF isAny THEN \E k \in 1..n : ~IsNil(it[k]) ELSE \A k \in 1..n : ~IsNil(it[k])), << >>)
 OpAny(args, max, flags) == BoolOp(args, max, TRUE)
 OpAll(args, max, flags) == BoolOp(args, max, FALSE)
